@@ -44,6 +44,35 @@ impl Cfg {
         c.generate_synthetic_names_for_anonymous_items(self.synthetic_names);
         c
     }
+    /// the same final settings reached through a setter history: for every
+    /// bit of `hist` the corresponding switch is first set to the opposite
+    /// value (a configuration object is documented as a set of independent
+    /// switches; only DWARF-on forces the code transform on)
+    pub fn to_config_hist(&self, hist: u8) -> ModuleConfig {
+        let mut c = ModuleConfig::new();
+        if hist & 1 != 0 {
+            c.generate_name_section(!self.names);
+        }
+        if hist & 2 != 0 {
+            c.generate_producers_section(!self.producers);
+        }
+        if hist & 4 != 0 {
+            c.generate_dwarf(!self.dwarf);
+        }
+        if hist & 8 != 0 {
+            c.preserve_code_transform(!self.code_transform);
+        }
+        if hist & 16 != 0 {
+            c.only_stable_features(!self.only_stable);
+        }
+        c.generate_name_section(self.names);
+        c.generate_producers_section(self.producers);
+        c.preserve_code_transform(self.code_transform);
+        c.generate_dwarf(self.dwarf);
+        c.only_stable_features(self.only_stable);
+        c.generate_synthetic_names_for_anonymous_items(self.synthetic_names);
+        c
+    }
 }
 
 /// parse; Ok(Err(msg)) = walrus rejected the input; Err = panic
